@@ -110,11 +110,32 @@ class ELF:
         self.segs = []
         p = rng.randint(0, 4)
         while p < self.top:
-            n = rng.randint(1, 6)
+            n = rng.randint(1, 6) if not (idx % 4 == 1 and idx > 1) else rng.randint(2, 8)
             filepages = n if rng.random() < 0.7 else rng.randint(0, n)
             self.segs.append(dict(pfn=p, npages=n, filepages=filepages, voff=0xffff880000000000))
             p += n + rng.choice([1, 1, 2, 3, 9])
         self.file = set(); self.mem = set()
+        self.variant = "disjoint"
+        if idx % 4 == 1 and idx > 1:
+            # the usual /proc/vmcore shape: the same RAM described twice, by the direct mapping (outer segment, here only
+            # partially file-backed) and by the kernel text mapping (inner segment): the segments overlap in physical
+            # address space but are ascending and disjoint in virtual address space
+            self.variant = "phys-overlap"
+            inner = []
+            big = [s for s in self.segs if s["npages"] >= 2]
+            for s in big:
+                if rng.random() < 0.75 or s is big[0]:
+                    st = s["pfn"] + rng.randint(1, s["npages"] - 1)
+                    # mostly: the outer segment stores no frame of the inner one, and reaches beyond its end
+                    s["filepages"] = rng.randint(0, st - s["pfn"]) if rng.random() < 0.7 else rng.randint(0, s["npages"] - 1)
+                    room = s["pfn"] + s["npages"] - st
+                    n = rng.randint(1, max(1, room - 1)) if rng.random() < 0.7 else rng.randint(1, room + 1)
+                    inner.append(dict(pfn=st, npages=n, filepages=rng.choice([n, n, n, rng.randint(0, n)]), voff=0xffffffff80000000))
+            self.segs += inner
+            if rng.random() < 0.75:
+                # every segment has its own mapping, virtual addresses ascending in the order of the physical ones
+                for k, sg in enumerate(sorted(self.segs, key=lambda t: (t["pfn"], -t["npages"]))):
+                    sg["voff"] = 0xffff880000000000 + (k << 36)
         if idx % 4 == 3:
             # byte-granular segments: start and end inside pages, filesz < memsz
             bs = []
@@ -288,6 +309,21 @@ def run(R):
         # before any read
         for q in rng.sample(qs, min(len(qs), 500)):
             lines.append(" ".join(map(str, q))); meta.append((li, q, "before"))
+        # interleaved histories (before the frames get into the page cache): one read of a frame or one query that
+        # starts there, then queries on both maps that start at or next to that frame
+        for _ in range(60 if R.tier == "quick" else 200):
+            p = rng.randrange(top)
+            if rng.random() < 0.5:
+                lines.append("probe 1 %d %d" % (p * PS, PS)); meta.append((li, ("iprobe", p), "read"))
+            else:
+                w = rng.choice(["file", "mem"])
+                q = rng.choice([("fset", w, p), ("fclr", w, p), ("bits", w, p, p + rng.randrange(12))])
+                lines.append(" ".join(map(str, q))); meta.append((li, q, "interleaved"))
+            for _ in range(rng.randint(1, 3)):
+                w = rng.choice(["file", "mem"])
+                a = max(0, p + rng.choice([0, 0, 0, 1, -1, 2]))
+                q = rng.choice([("fset", w, a), ("fclr", w, a), ("bits", w, a, a + rng.randrange(12))])
+                lines.append(" ".join(map(str, q))); meta.append((li, q, "interleaved"))
         # reads in every address space (the history), then everything again
         hi = getattr(L, "max_mapnr", 0)
         for p in list(range(top)) + (list(range(hi - 12, hi + 4)) if hi > top else []):
@@ -335,7 +371,7 @@ def run(R):
         if q[0] == "probe2":
             readable2.setdefault(li, {})[q[1]] = not o.startswith("nodata")
             continue
-        if q[0] in ("kvprobe", "zprobe", "set"):
+        if q[0] in ("kvprobe", "zprobe", "set", "iprobe"):
             continue
         S = L.file if q[1] == "file" else L.mem
         if q[0] == "bits":
@@ -412,8 +448,11 @@ def run(R):
         li = m[1] if m[0] == "open" else m[0]
         L = layouts[li]
         R.violation(msg, dict(stream="fmt/pfn", layout=dict(kind=L.kind, file=sorted(L.file), mem=sorted(L.mem), windows=getattr(L, "windows", None),
-                                                            order=L.order, segs=getattr(L, "segs", None)),
-                             query=m[1] if m[0] != "open" else None, stderr=err[-1200:], broken_theorems=proof["broken"]))
+                                                            order=L.order, segs=getattr(L, "segs", None), variant=getattr(L, "variant", None)),
+                             query=m[1] if m[0] != "open" else None,
+                             history_tail=[lines[j] for j in [k for k, mm in enumerate(meta) if mm][max(0, min(i, len(obs_meta) - 1) - 12):min(i, len(obs_meta) - 1) + 1]
+                                           if not lines[j].startswith("open")],
+                             stderr=err[-1200:], broken_theorems=proof["broken"]))
     elif (proof["broken"] or mism is not None) and not ifail:
         R.violation("proof obligation or correspondence broken: theorems %s; first differing query %s" % (proof["broken"], mism),
                     dict(stream="pfn", broken_theorems=proof["broken"], lean_log=proof["log"][-1500:],
@@ -425,9 +464,9 @@ def run(R):
                trusted_base=["Lean 4 kernel", "tools/dumpgen.py writers (diskdump incl. split, ELF)", "harness/s_fmt.c, gcc + ASan/UBSan"],
                broken_theorems=proof["broken"], theorems=THEOREMS,
                evaluations=len(impl_all) + len(iimpl), internal_function_cases=len(iimpl), distinct_nontrivial=len({(m[0], m[1]) for m in obs_meta if m[0] != "open" and m[1][0] in ("bits", "fset", "fclr")}),
-               rule="generated diskdump (1-3 split files passed in random order), SADUMP (single, disk set in random order, media) and ELF dumps (segments in random order, filesz<memsz) with random runs; "
+               rule="generated diskdump (1-3 split files passed in random order), SADUMP (single, disk set in random order, media) and ELF dumps (segments in random order, filesz<memsz, byte-granular, physically overlapping with disjoint virtual ranges) with random runs; "
                     "for file and memory page maps: find-set/find-clear at every index incl. beyond the top, bulk retrieval for all/sampled (first,last) "
-                    "ranges, before and after reading every frame in MACHPHYS and KV space, and again after the frames were read with zero_excluded=1 and =0; every answer is compared with the frame set the dump encodes and "
+                    "ranges, before and after reading every frame in MACHPHYS and KV space, after single reads of random frames (interleaved), and again after the frames were read with zero_excluded=1 and =0; every answer is compared with the frame set the dump encodes and "
                     "with the read status per frame; non-trivial = distinct (dump, query)",
                traces_validated_against_impl=len(impl_q), correspondence_first_diff=mism, case_kinds=kinds,
                samples=[dict(kind=L.kind, file=sorted(L.file)[:20]) for L in layouts[:2]])
